@@ -71,7 +71,8 @@ def tlaps(module, timeout=600):
     d = os.path.join(WORK, 'tlaps_' + module)
     shutil.rmtree(d, ignore_errors=True)
     os.makedirs(d, exist_ok=True)
-    shutil.copy(os.path.join(SPEC, module + '.tla'), d)
+    src = os.path.join(SPEC, 'proofs', module + '.tla')   # (kept out of spec/*.tla: tla-sany has no TLAPS.tla on its path)
+    shutil.copy(src if os.path.exists(src) else os.path.join(SPEC, module + '.tla'), d)
     try:
         p = subprocess.run(['tlapm', '--threads', '4', module + '.tla'], cwd=d, capture_output=True, text=True, timeout=timeout)
     except subprocess.TimeoutExpired:
